@@ -19,11 +19,28 @@
 // ("timeout exceeded", "Another signal received").
 // `returned_before` is read BEFORE the signal is sent, so every one of those reports was made before
 // the stop; `entered` counts calls that had at least begun when the process exited.
+//
+// Scenarios beyond the plain "one signal into a healthy run" (sigRun.scen):
+//
+//	second    a SECOND SIGINT/SIGTERM 20..200 ms after the first while the final flush crawls into a slow pipe
+//	timeout   SIGTERM while the sink has stopped taking bytes altogether: pandora must give up after its 3 s
+//	          interrupt timeout (`-long`: SIGINT, 30 s)
+//	startup   the signal is sent 0..120 ms after the process was started, without waiting for a first report
+//	          (before / around signal.Notify: the default action may still kill the process)
+//	hup/quit  SIGHUP / SIGQUIT mid-run: cli.go does not trap them
+//	full      the result destination is /dev/full: every write fails with ENOSPC; no signal
+//	nodir     the result destination lies in a directory that does not exist: it cannot be opened; no signal
+//	grpc      the grpc gun against an in-process grpc target (reflection), one signal
+//	mixed     two pools with DIFFERENT aggregator kinds (phout and jsonlines), one signal
+//	backpr    queue of 16 + 4 KiB buffer + a pipe slower than the load: the aggregator sits in write(2), instances
+//	          are parked in phout's blocking Report (jsonlines: counted drops) when the signal arrives
+//
 // The driver only RECORDS; TraceShutdown.tla decides.
 package main
 
 import (
 	"bytes"
+	"context"
 	"encoding/json"
 	"flag"
 	"fmt"
@@ -34,11 +51,37 @@ import (
 	"os/exec"
 	"path/filepath"
 	"sync"
+	"sync/atomic"
 	"syscall"
 	"time"
 
+	"github.com/yandex/pandora/examples/grpc/server"
+	"google.golang.org/grpc"
+	"google.golang.org/grpc/reflection"
+
 	"verifharness/internal/vt"
 )
+
+// the repository's example TargetService, Hello only, with server reflection (the grpc gun needs it)
+type sigGrpcTarget struct {
+	server.UnimplementedTargetServiceServer
+}
+
+func (sigGrpcTarget) Hello(ctx context.Context, r *server.HelloRequest) (*server.HelloResponse, error) {
+	return &server.HelloResponse{Hello: "hi " + r.Name}, nil
+}
+
+func startSigGrpcTarget() (addr string, stop func()) {
+	l, err := net.Listen("tcp", "127.0.0.1:0")
+	if err != nil {
+		panic(err)
+	}
+	srv := grpc.NewServer()
+	server.RegisterTargetServiceServer(srv, sigGrpcTarget{})
+	reflection.Register(srv)
+	go func() { _ = srv.Serve(l) }()
+	return l.Addr().String(), srv.Stop
+}
 
 func init() { register("aggsig", aggSigMain) }
 
@@ -55,17 +98,25 @@ type sigRun struct {
 	pools   int  // instance pools, each with its own aggregator and result file
 	fail    bool // an extra pool ("vfail" provider, "vnop" gun) fails ~300 ms into the run: the CLI's error path;
 	// the signal (if any) is sent when pandora has logged "Engine run failed. Awaiting started tasks."
+	scen     string // "" | second | timeout | startup | hup | quit | full | grpc | mixed | backpr (see the file comment)
+	secondMs int    // scen second: the second signal follows that much later
+	grpcAddr string
 }
+
+var sigByName = map[string]syscall.Signal{"INT": syscall.SIGINT, "TERM": syscall.SIGTERM, "HUP": syscall.SIGHUP, "QUIT": syscall.SIGQUIT}
 
 // slowPipe: a FIFO with a one-page buffer that is drained at a few MB/s: the aggregator's flush of
 // more than a page blocks until the reader has taken it, like a slow disk / a piped consumer would.
 type slowPipe struct {
-	fd   int
-	mu   sync.Mutex
-	data []byte
-	stop chan struct{}
-	done chan struct{}
+	fd     int
+	mu     sync.Mutex
+	data   []byte
+	stop   chan struct{}
+	done   chan struct{}
+	paused int32 // 1: the reader takes nothing (a sink that blocks) until finish()
 }
+
+func (p *slowPipe) pause() { atomic.StoreInt32(&p.paused, 1) }
 
 func newSlowPipe(path string, delay time.Duration) *slowPipe {
 	if err := syscall.Mkfifo(path, 0644); err != nil {
@@ -83,6 +134,14 @@ func newSlowPipe(path string, delay time.Duration) *slowPipe {
 		buf := make([]byte, 4096)
 		stopping := false
 		for {
+			if !stopping && atomic.LoadInt32(&p.paused) == 1 {
+				select {
+				case <-p.stop:
+					stopping = true
+				case <-time.After(time.Millisecond):
+				}
+				continue
+			}
 			n, err := syscall.Read(fd, buf)
 			if n > 0 {
 				p.mu.Lock()
@@ -131,8 +190,14 @@ func sigRunOne(cfg sigRun, bin, target string, w *vt.Writer) {
 		panic(err)
 	}
 	defer os.RemoveAll(dir)
-	ammo := "/a\n/b?x=1\n/c\n"
+	// the second entry carries a TAB inside its tag (everything after the first blank is the tag)
+	ammo := "/a\n/b?x=1 my\ttag\n/c\n"
 	if err := os.WriteFile(filepath.Join(dir, "ammo.uri"), []byte(ammo), 0644); err != nil {
+		panic(err)
+	}
+	grpcAmmo := `{"tag": "hello", "call": "target.TargetService.Hello", "payload": {"name": "x"}}` + "\n" +
+		`{"tag": "tab\tand\nnewline", "call": "target.TargetService.Hello", "payload": {"name": "y"}}` + "\n"
+	if err := os.WriteFile(filepath.Join(dir, "ammo.grpc.json"), []byte(grpcAmmo), 0644); err != nil {
 		panic(err)
 	}
 	dur := "60s"
@@ -143,14 +208,25 @@ func sigRunOne(cfg sigRun, bin, target string, w *vt.Writer) {
 		cfg.pools = 1
 	}
 	// every pool has its own aggregator and result destination; the counters are shared (sums)
-	var outs []string
+	var outs, kinds []string
 	var sps []*slowPipe
 	conf := "pools:\n"
 	for j := 0; j < cfg.pools; j++ {
 		out := filepath.Join(dir, fmt.Sprintf("result%d.out", j))
+		if cfg.scen == "full" {
+			out = "/dev/full"
+		}
+		if cfg.scen == "nodir" {
+			out = filepath.Join(dir, "no", "such", "dir", "result.out") // cannot be created
+		}
 		outs = append(outs, out)
+		kind := cfg.kind
+		if cfg.scen == "mixed" {
+			kind = []string{"vphout", "vjsonlines"}[j%2]
+		}
+		kinds = append(kinds, kind)
 		var result string
-		if cfg.kind == "vphout" {
+		if kind == "vphout" {
 			result = fmt.Sprintf("{type: vphout, destination: %q, id: true", out)
 		} else {
 			result = fmt.Sprintf("{type: vjsonlines, sink: {type: file, path: %q}", out)
@@ -158,26 +234,44 @@ func sigRunOne(cfg sigRun, bin, target string, w *vt.Writer) {
 		if cfg.q > 0 {
 			result += fmt.Sprintf(", sample-queue-size: %d", cfg.q)
 		}
+		if cfg.scen == "backpr" {
+			result += ", buffer-size: 4096" // every ~70 lines a write(2) into the crawling pipe
+			if kind == "vjsonlines" {
+				result += ", flush-interval: 5ms"
+			}
+		}
 		result += "}"
 		if cfg.pipe {
 			delay := 500 * time.Microsecond
-			if cfg.fail {
+			switch {
+			case cfg.fail:
 				delay = 3 * time.Millisecond // the final flush of the healthy pool takes a few hundred ms
+			case cfg.scen == "second":
+				delay = 8 * time.Millisecond // 0.5 MB/s: the final flush of a second's worth of lines takes 0.3..1 s
+			case cfg.scen == "backpr":
+				delay = 40 * time.Millisecond // 100 KB/s: slower than the load produces lines
 			}
 			sps = append(sps, newSlowPipe(out, delay))
 		}
+		gun := fmt.Sprintf("{type: http, target: %q}", target)
+		ammoConf := fmt.Sprintf("{type: uri, file: %q}", filepath.Join(dir, "ammo.uri"))
+		if cfg.scen == "grpc" {
+			gun = fmt.Sprintf("{type: grpc, target: %q, timeout: 60s}", cfg.grpcAddr)
+			ammoConf = fmt.Sprintf("{type: grpc/json, file: %q}", filepath.Join(dir, "ammo.grpc.json"))
+		}
 		conf += fmt.Sprintf(`  - id: p%d
-    gun: {type: http, target: %q}
-    ammo: {type: uri, file: %q}
+    gun: %s
+    ammo: %s
     result: %s
     rps: {type: const, ops: %d, duration: %s}
     startup: {type: once, times: %d}
-`, j, target, filepath.Join(dir, "ammo.uri"), result, cfg.rps/cfg.pools, dur, (cfg.inst+cfg.pools-1)/cfg.pools)
+`, j, gun, ammoConf, result, cfg.rps/cfg.pools, dur, (cfg.inst+cfg.pools-1)/cfg.pools)
 	}
 	npools := cfg.pools
 	if cfg.fail {
 		badOut := filepath.Join(dir, "result_bad.out")
 		outs = append(outs, badOut)
+		kinds = append(kinds, "vphout")
 		conf += fmt.Sprintf(`  - id: bad
     gun: {type: vnop}
     ammo: {type: vfail, after: %dms}
@@ -194,7 +288,7 @@ func sigRunOne(cfg sigRun, bin, target string, w *vt.Writer) {
 	}
 	w.Emit(map[string]interface{}{"ev": "Start", "run": cfg.run, "kind": cfg.kind, "sig": cfg.sig,
 		"after_ms": cfg.afterMs, "q": cfg.q, "rps": cfg.rps, "inst": cfg.inst, "pipe": cfg.pipe, "gomaxprocs": cfg.gmp, "pools": npools, "fail": cfg.fail,
-		"inst_total": cfg.pools * ((cfg.inst + cfg.pools - 1) / cfg.pools)})
+		"inst_total": cfg.pools * ((cfg.inst + cfg.pools - 1) / cfg.pools), "scen": cfg.scen, "second_ms": cfg.secondMs})
 	logf, _ := os.Create(filepath.Join(dir, "pandora.log"))
 	defer logf.Close()
 	cmd := exec.Command(bin, confPath)
@@ -224,6 +318,8 @@ func sigRunOne(cfg sigRun, bin, target string, w *vt.Writer) {
 	}
 	var waitErr error
 	signals := 0
+	sigSent := false
+	var tSig time.Time
 	if cfg.fail && cfg.sig != "none" {
 		// the pool "bad" fails by itself; ONE signal is sent as soon as pandora has logged that it is awaiting
 		// the started tasks of the failed run (the healthy pool's aggregator is draining into the slow pipe)
@@ -246,15 +342,24 @@ func sigRunOne(cfg sigRun, bin, target string, w *vt.Writer) {
 			}
 			time.Sleep(500 * time.Microsecond)
 		}
-		sig := syscall.SIGINT
-		if cfg.sig == "TERM" {
-			sig = syscall.SIGTERM
-		}
 		// the process may have finished its tasks already: then the signal finds nobody (not an error)
-		if err := cmd.Process.Signal(sig); err == nil {
+		tSig = time.Now()
+		if err := cmd.Process.Signal(sigByName[cfg.sig]); err == nil {
 			signals = 1
 		}
+		sigSent = true
 		w.Emit(map[string]interface{}{"ev": "Signal", "run": cfg.run, "sig": cfg.sig, "returned_before": -1})
+	} else if cfg.scen == "startup" {
+		// no waiting for a first report: the signal may find the process before signal.Notify (default action: it
+		// dies), while the pools start, or already shooting
+		time.Sleep(time.Duration(cfg.afterMs) * time.Millisecond)
+		before := fileSize(retPath)
+		tSig = time.Now()
+		if err := cmd.Process.Signal(sigByName[cfg.sig]); err == nil {
+			signals = 1
+		}
+		sigSent = true
+		w.Emit(map[string]interface{}{"ev": "Signal", "run": cfg.run, "sig": cfg.sig, "returned_before": before})
 	} else if cfg.sig != "none" {
 		signals = 1
 		// wait until pandora is shooting
@@ -279,35 +384,69 @@ func sigRunOne(cfg sigRun, bin, target string, w *vt.Writer) {
 			return
 		default:
 		}
-		before := fileSize(retPath)
-		sig := syscall.SIGINT
-		if cfg.sig == "TERM" {
-			sig = syscall.SIGTERM
+		if cfg.scen == "timeout" {
+			// from now on the sink takes nothing: the final flush can never complete
+			for _, sp := range sps {
+				sp.pause()
+			}
 		}
-		if err := cmd.Process.Signal(sig); err != nil {
+		before := fileSize(retPath)
+		tSig = time.Now()
+		if err := cmd.Process.Signal(sigByName[cfg.sig]); err != nil {
 			fail("signal: " + err.Error())
 			return
 		}
+		sigSent = true
 		w.Emit(map[string]interface{}{"ev": "Signal", "run": cfg.run, "sig": cfg.sig, "returned_before": before})
+		if cfg.scen == "second" {
+			time.Sleep(time.Duration(cfg.secondMs) * time.Millisecond)
+			// the process may be gone already: then there was no second signal
+			if err := cmd.Process.Signal(sigByName[cfg.sig]); err == nil {
+				signals = 2
+			}
+		}
 	}
 	t1 := time.Now()
+	// scen timeout: pandora must give up by itself (3 s after SIGTERM, 30 s after SIGINT); a process that is still
+	// there a minute after that hangs - that is an observation, not a failure of the machinery
+	limit := 120 * time.Second
+	if cfg.scen == "timeout" {
+		limit = 63 * time.Second // SIGTERM: 3 s, and a minute on top of it
+		if cfg.sig == "INT" {
+			limit = 90 * time.Second // 30 s
+		}
+	}
+	hung := false
 	select {
 	case waitErr = <-exited:
-	case <-time.After(120 * time.Second):
-		fail("vpandora did not exit within 120 s")
-		return
+	case <-time.After(limit):
+		if cfg.scen != "timeout" {
+			fail("vpandora did not exit within 120 s")
+			return
+		}
+		hung = true
+		cmd.Process.Kill()
+		waitErr = <-exited
 	}
 	waitMs := int(time.Since(t1) / time.Millisecond)
+	elapsedMs := -1
+	if sigSent {
+		elapsedMs = int(time.Since(tSig) / time.Millisecond)
+	}
 	status := 0
+	killed := ""
 	if waitErr != nil {
 		if ee, ok := waitErr.(*exec.ExitError); ok {
 			status = ee.ExitCode()
+			if ws, ok := ee.Sys().(syscall.WaitStatus); ok && ws.Signaled() {
+				killed = ws.Signal().String() // the default action of a signal nobody trapped
+			}
 		} else {
 			status = -2
 		}
 	}
 	ev := map[string]interface{}{"ev": "Exit", "run": cfg.run, "status": status, "wait_ms": waitMs,
-		"entered": fileSize(enterPath), "returned": fileSize(retPath),
+		"entered": fileSize(enterPath), "returned": fileSize(retPath), "killed": killed, "hung": hung, "elapsed_ms": elapsedMs,
 		"lines": 0, "malformed": 0, "last_complete": true, "agg_returned": false, "dropped": 0, "agg_err": ""}
 	lb, _ := os.ReadFile(filepath.Join(dir, "pandora.log"))
 	// by design pandora does not wait after a SECOND signal or when its timeout expires.  "Another signal
@@ -315,7 +454,7 @@ func sigRunOne(cfg sigRun, bin, target string, w *vt.Writer) {
 	ev["timeout_exit"] = bytes.Contains(lb, []byte("timeout exceeded"))
 	ev["another_signal"] = bytes.Contains(lb, []byte("Another signal received"))
 	ev["signals"] = signals
-	ev["forced"] = bytes.Contains(lb, []byte("timeout exceeded")) || (bytes.Contains(lb, []byte("Another signal received")) && signals >= 2)
+	ev["forced"] = bytes.Contains(lb, []byte("timeout exceeded")) || (bytes.Contains(lb, []byte("Another signal received")) && signals >= 2) || killed != ""
 	if cfg.fail {
 		// written by the failing provider right before it failed: reports that had returned by then
 		ev["failed_returned_before"] = -1
@@ -333,7 +472,7 @@ func sigRunOne(cfg sigRun, bin, target string, w *vt.Writer) {
 		var b []byte
 		if cfg.pipe && j < len(sps) {
 			b = sps[j].finish()
-		} else {
+		} else if out != "/dev/full" {
 			b, _ = os.ReadFile(out)
 		}
 		if len(b) == 0 {
@@ -346,7 +485,7 @@ func sigRunOne(cfg sigRun, bin, target string, w *vt.Writer) {
 		}
 		for _, ln := range lines {
 			ok := false
-			if cfg.kind == "vphout" {
+			if kinds[j] == "vphout" {
 				ok = phoutRe.Match(ln)
 			} else {
 				var v interface{}
@@ -385,6 +524,8 @@ func aggSigMain(args []string) {
 	runs := fs.Int("runs", 12, "runs")
 	par := fs.Int("par", 4, "processes in flight")
 	failRuns := fs.Int("fail", 0, "extra runs in which one pool fails by itself (CLI error path), most with one signal while the tasks are awaited")
+	scenRuns := fs.Int("scen", 0, "extra runs of the scenarios second / timeout / startup / hup / quit / full / nodir / grpc / mixed / backpr (round robin)")
+	long := fs.Int("long", 0, "extra timeout runs with SIGINT (30 s each)")
 	fs.Parse(args)
 	seed := aggSeed()
 	w := vt.Create(*out)
@@ -400,6 +541,8 @@ func aggSigMain(args []string) {
 	go srv.Serve(ln)
 	defer srv.Close()
 	target := ln.Addr().String()
+	grpcAddr, stopGrpc := startSigGrpcTarget()
+	defer stopGrpc()
 
 	r := rand.New(rand.NewSource(seed*7919 + 13))
 	var cfgs []sigRun
@@ -447,10 +590,70 @@ func aggSigMain(args []string) {
 		cfg.sig = []string{"INT", "TERM", "INT", "none"}[n%4]
 		cfgs = append(cfgs, cfg)
 	}
+	r2 := rand.New(rand.NewSource(seed*104729 + 7))
+	// the kind alternates with the position (and from round to round): scenarios listed twice get both kinds in one round
+	scens := []string{"timeout", "second", "startup", "full", "hup", "grpc", "mixed", "backpr", "quit", "startup", "full", "nodir", "second"}
+	for n := 0; n < *scenRuns+*long; n++ {
+		cfg := sigRun{run: *runs + *failRuns + n + 1, rps: 3000 + 1000*r2.Intn(3), inst: 4 + r2.Intn(6), pools: 1, grpcAddr: grpcAddr}
+		cfg.scen = scens[n%len(scens)]
+		cfg.kind = []string{"vphout", "vjsonlines"}[(n/len(scens)+n%len(scens))%2]
+		cfg.sig = []string{"INT", "TERM"}[(n/2)%2]
+		cfg.afterMs = 100 + r2.Intn(900)
+		if n >= *scenRuns {
+			cfg.scen, cfg.sig = "timeout", "INT" // 30 s
+		}
+		switch cfg.scen {
+		case "timeout":
+			if n < *scenRuns {
+				cfg.sig = "TERM" // 3 s
+			}
+			cfg.pipe = true
+			cfg.afterMs = 300 + r2.Intn(500)
+		case "second":
+			cfg.pipe = true
+			cfg.rps = 5000
+			cfg.afterMs = 700 + r2.Intn(900)
+			cfg.secondMs = 20 + r2.Intn(180)
+		case "startup":
+			cfg.afterMs = r2.Intn(120)
+			if r2.Intn(3) == 0 {
+				cfg.afterMs = r2.Intn(25)
+			}
+		case "hup":
+			cfg.sig = "HUP"
+		case "quit":
+			cfg.sig = "QUIT"
+		case "full", "nodir":
+			cfg.sig = "none"
+			cfg.afterMs = 200 + r2.Intn(400)
+		case "mixed":
+			cfg.pools, cfg.kind = 2, "mixed"
+			cfg.pipe = r2.Intn(2) == 0
+		case "backpr":
+			cfg.pipe = true
+			// more than the instances: a shot in flight at the signal must find room after the drain loop has ended
+			// (a parked instance would turn the exit into the interrupt timeout - Shutdown!ReportBlocks)
+			cfg.q = 16
+			cfg.afterMs = 400 + r2.Intn(800)
+		}
+		cfgs = append(cfgs, cfg)
+	}
 	sem := make(chan struct{}, *par)
 	var wg sync.WaitGroup
-	for _, cfg := range cfgs {
+	// the long ones first: they are mostly waiting
+	order := append([]sigRun{}, cfgs...)
+	for i, j := 0, len(order)-1; i < j; i, j = i+1, j-1 {
+		order[i], order[j] = order[j], order[i]
+	}
+	for _, cfg := range order {
 		wg.Add(1)
+		if cfg.scen == "timeout" {
+			go func(cfg sigRun) { // sleeps for 3 s / 30 s: does not occupy a slot
+				defer wg.Done()
+				sigRunOne(cfg, *bin, target, w)
+			}(cfg)
+			continue
+		}
 		sem <- struct{}{}
 		go func(cfg sigRun) {
 			defer wg.Done()
